@@ -19,6 +19,7 @@ func init() {
 			"R4 the queue is created with the configured size parameter as its capacity and the sender's batch is bounded by a slice capacity derived from the same parameter; " +
 			"R5 synchronous Ctx* writes arm the transport write deadline from the context before writing and reset it on exit; R6 (with C05-R2) the close error is published before the context is cancelled, so a writer woken by Close sees it. " +
 			"ALSO: every Executor starts its action with go on every path and never runs it in Exec's frame; Shutdown cancels before closing channels; the failed sender releases the flag before closing. " +
+			"ALSO (round 6): A select arm woken by a context's Done that reports a context's Err reports the same context's. " +
 			"DOES NOT DECIDE: promptness of wake-ups, fairness among blocked writers, cancellation without deadline on synchronous channels (not interruptible by design).",
 		Assumptions: []string{"select semantics of Go: default is taken only when no other case is ready", "Executor.Exec does not block"},
 		Run:         runC18,
